@@ -17,7 +17,7 @@ EXTENDS EqHashImpl
 
 Ok(v)  == [k |-> "ok", view |-> v]
 NoView == [shape |-> <<>>, dt |-> "", fld |-> "",
-           w |-> [kind |-> "none", exp |-> QZero, c |-> QOne, arr |-> <<>>, tag |-> ""]]
+           w |-> [kind |-> "none", exp |-> QZero, c |-> QOne, arr |-> <<>>, tag |-> ""], nw |-> <<>>]
 Raises == [k |-> "raise", view |-> NoView]
 DefaultW == [kind |-> "const", exp |-> QI(2), c |-> QOne, arr |-> <<>>, tag |-> ""]
 
@@ -36,6 +36,9 @@ ImplTensorAstype(spc, dt) ==
   ELSE IF v.w.kind = "array" /\ ~CanCast(ArrDt(spc), dt) THEN Raises
   ELSE Ok([v EXCEPT !.dt = dt, !.fld = FieldOfDtype(dt)])
 
+RECURSIVE NwOf(_, _, _)
+NwOf(cs, rs, k) == IF k > Len(cs) THEN <<>>
+                   ELSE (IF cs[k].cls = "PSpace" THEN <<rs[k].view.w>> \o rs[k].view.nw ELSE <<>>) \o NwOf(cs, rs, k + 1)
 RECURSIVE ImplAstype(_, _)
 \* mode: a target dtype (astype) or "real" / "complex" (real_space / complex_space)
 TargetOf(dt, mode) == IF mode = "real" THEN RealDt(dt) ELSE IF mode = "complex" THEN CplxDt(dt) ELSE mode
@@ -51,7 +54,9 @@ ImplAstype(spc, mode) ==
          ELSE LET rs == [k \in 1..Len(Comps(spc)) |-> ImplAstype(Comps(spc)[k], mode)] IN
               IF \E k \in 1..Len(rs) : rs[k].k = "raise" THEN Raises
               ELSE LET ds == [k \in 1..Len(LeafDts(spc)) |-> TargetOf(LeafDts(spc)[k], mode)] IN
-                   Ok([View(spc) EXCEPT !.dt = DtStr(ds), !.fld = FieldOfDtype(ds[1]), !.w = DefaultW])
+                   \* nested product spaces are converted by the same method: their weightings are what IT returns
+                   Ok([View(spc) EXCEPT !.dt = DtStr(ds), !.fld = FieldOfDtype(ds[1]), !.w = DefaultW,
+                                        !.nw = NwOf(Comps(spc), rs, 1)])
 
 (* ------------------------------ axis selection -------------------------- *)
 RECURSIVE IntProd(_)
